@@ -45,10 +45,14 @@ func Embed(l *core.Lane, kind int, parts [][]byte, surround bool) *Embedded {
 			if s.Kind == "exif" {
 				e.Parts = []Span{{"tiff", s.DataOff, s.DataOff + len(s.Data)}}
 			}
+			if s.Len > 0 {
+				e.Map = append(e.Map, FieldSpan{"seg.len", s.Off + 2, 2}, FieldSpan{"end:seg", s.Off + 2 + s.Len, 0})
+			}
 		}
 	case CPNG:
 		p := DrawPNG(l, parts[0], surround)
 		e.Bytes = p.Bytes
+		e.Map = []FieldSpan{{"png.exif.len", p.ExifOff - 8, 4}, {"end:exif", p.ExifOff + len(parts[0]) + 4, 0}}
 		e.Parts = []Span{{"tiff", p.ExifOff, p.ExifOff + len(parts[0])}}
 	case CCR3:
 		var o CR3Opts
@@ -77,6 +81,7 @@ func Embed(l *core.Lane, kind int, parts [][]byte, surround bool) *Embedded {
 	case CHEIF:
 		h := DrawHEIF(l, parts[0], surround)
 		e.Bytes = h.Bytes
+		e.Map = h.Map
 		e.Parts = []Span{{"tiff", h.TIFFOff, h.TIFFOff + len(parts[0])}}
 	}
 	return e
